@@ -125,8 +125,8 @@ Notation pstored := (pstored c).
 Notation inv := (inv c U).
 
 (** stored headers are chain headers under their own hash and indexed by their height;
-    index entries and pointers are well-formed (an index entry may outlive its header:
-    DeleteRange removes the header first) *)
+    index entries and pointers are well-formed (DeleteRange removes a header and its index entry
+    in one write: deleteKeys) *)
 Record dinv (x : st) : Prop := {
   dv_hdr : forall id h, d_hdr x !! id = Some h ->
            exists n, inr n /\ h = c n /\ id = h_id (c n) /\ d_idx x !! n = Some id;
@@ -160,6 +160,16 @@ Proof.
   intros [A B C D] Hn. split; cbn; auto.
   - intros id h H. destruct (A id h H) as (m & Hm & -> & -> & Hi). exists m. split_and!; auto.
     rewrite lookup_delete_ne; auto. intros ->. congruence.
+  - intros m id H. apply lookup_delete_Some in H. destruct H. auto.
+Qed.
+
+(** deleteKeys: the header and its index entry leave in one write *)
+Lemma dinv_del_both s n : dinv s -> dinv (write s [WDelH (h_id (c n)); WDelI n]).
+Proof.
+  intros [A B C D]. split; cbn; auto.
+  - intros id h H. apply lookup_delete_Some in H. destruct H as [Hne H].
+    destruct (A id h H) as (m & Hm & -> & -> & Hi). exists m. split_and!; auto.
+    rewrite lookup_delete_ne; auto. intros ->. apply Hne. reflexivity.
   - intros m id H. apply lookup_delete_Some in H. destruct H. auto.
 Qed.
 
@@ -257,7 +267,7 @@ Proof.
   apply steps_mem1. apply mem_set_pend.
 Qed.
 
-(** deleteSingle / deleteSequential: header delete, index delete, batch eviction per height *)
+(** deleteSingle / deleteSequential: one write (header and index delete), batch eviction per height *)
 Lemma delete_single_steps s script nh n log : minv s -> dinv s ->
   let '(s', _, _) := delete_single s script nh n log in
   steps dinv s s' /\ minv s' /\ headp s' = headp s /\ tailp s' = tailp s.
@@ -275,10 +285,8 @@ Proof.
     rewrite E. destruct (run_handlers s script 0 nh n log) as [log' ok].
     destruct ok; [|split_and!; auto; apply st_refl].
     destruct (StoreDeleteP.del1_minv s n M Sn) as [M' _]. split_and!; auto.
-    pose proof (dinv_del_hdr s (h_id (c n)) D) as D1.
-    eapply st_write; [exact D1|]. eapply st_write.
-    + apply dinv_del_idx; auto. cbn. apply lookup_delete.
-    + apply steps_mem1. apply mem_pend_del.
+    eapply st_write; [apply dinv_del_both; exact D|].
+    apply steps_mem1. apply mem_pend_del.
   - rewrite (StoreDeleteP.delete_single_missing s script nh n log Sn). split_and!; auto. apply st_refl.
 Qed.
 
